@@ -14,7 +14,7 @@ namespace Xrl
 namespace Spec
 
 section
-variable {α : Type} [OfScientific α] [LT α] [DecidableLT α]
+variable {α : Type} [OfScientific α] [LT α] [DecidableLT α] [Add α] [Sub α] [Mul α] [Div α] [Neg α] [XNum α]
 
 def zOk (Z : Int) : Bool := decide (1 ≤ Z ∧ Z ≤ Hdr.ZMAX)
 /-- macro value inside `[lo, hi]` -/
@@ -38,6 +38,13 @@ def CosKronTransProb (T : Tables α) := lookup2 T.CosKron_arr Hdr.FL12_TRANS Hdr
 def ElectronConfig (T : Tables α) := lookup2 T.Electron_Config_Kissel Hdr.K_SHELL (Hdr.SHELLNUM_K - 1) id
 def AugerRate (T : Tables α) := lookup2 T.Auger_Rates Hdr.K_L1L1_AUGER (Hdr.AUGERNUM - 1) id
 def AugerYield (T : Tables α) := lookup2 T.Auger_Yields Hdr.K_SHELL Hdr.M5_SHELL id
+
+/-- Biggs occupancy: the record of sub-shell `s` among the `NShells` tabulated ones; "no record" is occupancy 0 -/
+def ElectronConfig_Biggs [LE α] [DecidableLE α] (T : Tables α) (Z s : Int) : Expect α :=
+  if zOk Z = true ∧ 0 ≤ s ∧ s < T.NShells_ComptonProfiles Z.toNat ∧
+      ¬ deq ((T.UOCCUP_ComptonProfiles Z.toNat).get s.toNat) (0.0 : α) then
+    .value ((T.UOCCUP_ComptonProfiles Z.toNat).get s.toNat)
+  else .fails
 
 end
 end Spec
